@@ -91,6 +91,9 @@ fn expr(e: &Expr) -> R<String> {
     Ok(match e {
         Expr::Lit(l) => match &l.lit {
             Lit::Bool(b) => b.value.to_string(),
+            Lit::Int(i) => i.base10_digits().to_string(),
+            // a string literal is the list of its bytes
+            Lit::Str(st) if st.value().is_ascii() => format!("(map Ascii.ascii_of_nat ({}nil))", st.value().bytes().map(|b| format!("{} :: ", b)).collect::<String>()),
             Lit::Char(c) if c.value().is_ascii() && !c.value().is_ascii_control() => if c.value() == '"' { "\"\"\"\"%char".to_string() } else { format!("\"{}\"%char", c.value()) },
             _ => return Err("literal outside subset".into()),
         },
@@ -122,12 +125,19 @@ fn expr(e: &Expr) -> R<String> {
             BinOp::And(_) => format!("(andb {} {})", expr(&b.left)?, expr(&b.right)?),
             BinOp::Or(_) => format!("(orb {} {})", expr(&b.left)?, expr(&b.right)?),
             // comparisons of naturals (byte offsets)
+            BinOp::Mul(_) => format!("(Nat.mul {} {})", expr(&b.left)?, expr(&b.right)?),
+            BinOp::Add(_) => format!("(Nat.add {} {})", expr(&b.left)?, expr(&b.right)?),
+            // `x == Enum::Variant`
+            BinOp::Eq(_) if matches!(&*b.right, Expr::Path(p) if p.path.segments.len() >= 2) => is_match(&expr(&b.left)?, &expr(&b.right)?),
             BinOp::Lt(_) => format!("(Nat.ltb {} {})", expr(&b.left)?, expr(&b.right)?),
             BinOp::Gt(_) => format!("(Nat.ltb {} {})", expr(&b.right)?, expr(&b.left)?),
             BinOp::Le(_) => format!("(Nat.leb {} {})", expr(&b.left)?, expr(&b.right)?),
             BinOp::Ge(_) => format!("(Nat.leb {} {})", expr(&b.right)?, expr(&b.left)?),
             _ => return Err(format!("binary operator outside subset: {}", b.to_token_stream())),
         },
+        Expr::Call(c) if c.args.len() == 1 && matches!(&*c.func, Expr::Path(p) if path_name(&p.path) == "String_from") => expr(&c.args[0])?,
+        Expr::MethodCall(m) if m.method == "into" && m.args.is_empty() => expr(&m.receiver)?,
+        // `self.config().field` as well as `ctx.config().field`
         Expr::Call(c) => {
             let mut a = vec![];
             for x in &c.args {
@@ -321,6 +331,19 @@ const KERNELS: &[Kernel] = &[
         name: "should_format_node",
         funcs: &[("should_format_node", "Definition should_format_node (formatting_disabled : bool) (for_loop_1 : option FormatNode) (range : option FormatRange) (node : NodePos) : FormatNode :=")],
         module: "ShouldFormat",
+    },
+    Kernel {
+        file: "src/context.rs",
+        name: "whitespace_and_call_options",
+        funcs: &[
+            ("line_ending_character", "Definition line_ending_character (line_endings : LineEndings) : list Ascii.ascii :="),
+            ("create_plain_indent_trivia", "Definition create_plain_indent_trivia (indent_type : IndentType) (indent_width : nat) (indent_level : nat) : WsToken :="),
+            ("create_function_definition_trivia", "Definition create_function_definition_trivia (space_after_function_names : SpaceAfterFunctionNames) : WsToken :="),
+            ("create_function_call_trivia", "Definition create_function_call_trivia (space_after_function_names : SpaceAfterFunctionNames) : WsToken :="),
+            ("should_omit_string_parens", "Definition should_omit_string_parens (no_call_parentheses : bool) (call_parentheses : CallParenType) : bool :="),
+            ("should_omit_table_parens", "Definition should_omit_table_parens (no_call_parentheses : bool) (call_parentheses : CallParenType) : bool :="),
+        ],
+        module: "CtxOptions",
     },
     Kernel {
         file: "src/formatters/general.rs",
